@@ -148,6 +148,15 @@ def build_fn(src_root, d, contract, hint_specs, tailproof, vacuity):
         f = dict(f, body=f"\n        let mut {st} = {st}0;\n        let __v = {{{inner}}};\n        (__v, {st})\n    ", sig=d['stepsig'])
         closure_note = (f"closure body `{op} .. }}` extracted as a step function (captured `{st}` = local initialised from parameter `{st}0`, returned with the value); "
                         f"the wrapper around it ({wrapper.count(chr(10)) + 1} lines, normalised sha256 {wsha}) is NOT verified here")
+    rename_note = None
+    if d.get('rename'):
+        # rule 15: a local identifier that is a reserved word of Verus (`int`) is renamed, whole-word, everywhere in the body
+        a, b = d['rename'].split('=>')
+        n_occ = len(re.findall(r'\b' + re.escape(a) + r'\b', f['body']))
+        if n_occ == 0 or re.search(r'\b' + re.escape(b) + r'\b', f['body']):
+            raise GenError(f"anchor lost: identifier `{a}` not found (or `{b}` already used) in {d['fn']}")
+        f = dict(f, body=re.sub(r'\b' + re.escape(a) + r'\b', b, f['body']))
+        rename_note = f'local identifier `{a}` (reserved in Verus) renamed to `{b}` ({n_occ} occurrences)'
     sig, has_ret = name_return(f['sig'], ret)
     if d.get('closure'):
         sig, has_ret = f['sig'], True
@@ -171,6 +180,8 @@ def build_fn(src_root, d, contract, hint_specs, tailproof, vacuity):
     subs_done = []
     if closure_note:
         subs_done.append(closure_note)
+    if rename_note:
+        subs_done.append(rename_note)
     if d.get('breakvalue'):
         # rule 11: `loop { .. break E; .. }` in value position -> `{ let mut __brk = None; loop { .. { __brk = Some(E); break; } .. } __brk.unwrap() }`
         n_done = 0
